@@ -20,7 +20,8 @@ RULE = ("Hypothesis-generated histories: 1-2 root objects on one resource plus r
         "after which every operation must raise until a repairing rewrite; then every read API is issued through roots and "
         "handles, and setitem/append/delitem/setdefault through handles; one step in twenty starts a "
         "script: a mutation (root clear()/reset() included), an outside rewrite, the same mutation again. Oracle: every outcome equals "
-        "the plain model of the resource at call time (==), for handles only while attached by the "
+        "the plain model of the resource at call time (== and, for the values read, the same JSON leaf "
+        "types: true is not 1, 1 is not 1.0), for handles only while attached by the "
         "C02 wording; after a write the independently read resource equals the model. Non-trivial = "
         "an operation through a tree that had not loaded since the last rewrite and whose expected "
         "outcome differs from what it would have been before that rewrite; distinct by (class, kind "
@@ -212,7 +213,7 @@ def make_one(spec, tier, acc):
         draw = data.draw
         init = draw(st.one_of(dom.doc(ci.kind), dom.doc(ci.kind), st.just(ABSENT)))
         st8 = {"loaded": set(), "before": None, "nt": []}
-        w = wm.run_generated(ID, ci, [init], _gen_step(ci, dom, st8), draw, max_steps)
+        w = wm.run_generated(ID, ci, [init], _gen_step(ci, dom, st8), draw, max_steps, exact=True)
         cnt = {}
         for t in st8["nt"]:
             cnt[f"pair.{t[0]}->{t[1]}"] = cnt.get(f"pair.{t[0]}->{t[1]}", 0) + 1
